@@ -775,6 +775,54 @@ func exec(line string) (res h.Result) {
 			}
 		}
 		res.Class = "pubadd-" + strings.Fields(res.Impl)[0]
+	case "pubaddb": // pubaddb <p> <betaP> <r> <betaR>: PubPoly.Add of commitments under DIFFERENT bases: the sum keeps the receiver's base
+		p, bp, r, br := parsePoly(w[1]), h.BigDec(w[2]), parsePoly(w[3]), h.BigDec(w[4])
+		sum, err := p.pub(bp).Add(r.pub(br))
+		if err != nil {
+			res.Impl = "err " + errKind(err)
+			if p.g == r.g && len(p.c) == len(r.c) {
+				res.Oracle = "pubadd-rejected: " + res.Impl
+			}
+		} else {
+			base, cs := sum.Info()
+			parts := []string{"base=" + p.g.dlog(base, modq(bp, p.g.q))}
+			if p.g != r.g || len(p.c) != len(r.c) {
+				res.Oracle = "pubadd-mismatch-accepted"
+			}
+			for i, c := range cs {
+				if i >= len(r.c) {
+					break
+				}
+				want := modq(new(big.Int).Add(p.c[i], r.c[i]), p.g.q)
+				d := p.g.dlog(c, want)
+				parts = append(parts, d)
+				if d != want.String() {
+					res.Oracle = fmt.Sprintf("pubadd-wrong: coefficient %d", i)
+				}
+			}
+			if parts[0] != "base="+modq(bp, p.g.q).String() && res.Oracle == "" {
+				res.Oracle = "pubadd-base: the sum does not carry the receiver's base"
+			}
+			res.Impl = "ok " + strings.Join(parts, ",")
+		}
+		res.Class = "pubaddb-" + strings.Fields(res.Impl)[0]
+	case "coeffs": // coeffs <p>: Coefficients(), Threshold(), Secret() of a private polynomial
+		p := parsePoly(w[1])
+		pp := p.pri()
+		res.Impl = catch(func() string {
+			sec := "-"
+			if len(p.c) > 0 {
+				sec = p.g.num(pp.Secret()).String()
+			}
+			return fmt.Sprintf("ok %s t=%d secret=%s", csvBig(p.g.coeffsOf(pp)), pp.Threshold(), sec)
+		})
+		want := "-"
+		if len(p.c) > 0 {
+			want = p.c[0].String()
+		}
+		if res.Impl != fmt.Sprintf("ok %s t=%d secret=%s", csvBig(p.c), len(p.c), want) {
+			res.Oracle = "coeffs-wrong: " + res.Impl
+		}
 	case "pubequal":
 		p, r := parsePoly(w[1]), parsePoly(w[2])
 		want := p.g == r.g && eqList(p.c, r.c)
@@ -1365,6 +1413,9 @@ func gen(tier string, rng *h.Rng, emit func(string)) {
 		emit(fmt.Sprintf("pubequal %s %s", polyLit(g, small), polyLit(o, small)))
 		emit(fmt.Sprintf("priadd %s %s", polyLit(g, small), polyLit(o, small)))
 		emit(fmt.Sprintf("pubadd %s %s", polyLit(g, small), polyLit(o, small)))
+		emit(fmt.Sprintf("pubaddb %s %s %s %s", polyLit(g, c), rng.Big(g.q), polyLit(g, d), rng.Big(g.q)))
+		emit(fmt.Sprintf("pubaddb %s 1 %s %s", polyLit(g, c), polyLit(g, longer), rng.Big(g.q)))
+		emit(fmt.Sprintf("coeffs %s", polyLit(g, c)))
 		emit(fmt.Sprintf("primul %s %s", polyLit(g, c), polyLit(g, d[:rng.Intn(t+1)])))
 		emit(fmt.Sprintf("primul %s %s", polyLit(g, c), polyLit(g, []*big.Int{rng.Big(g.q), big.NewInt(1)})))
 		beta := rng.Big(g.q)
